@@ -110,8 +110,16 @@ class Facts:
     def need(self, path):
         b = self.bodies.get(path)
         if b is None:
+            b = getattr(self, "inlined_bodies", {}).get(path)  # a helper whose calls were all inlined: still readable by name
+        if b is None:
             raise AnchorMissing(path)
         return b
+
+    def original(self, path):
+        """the body as written (before new helpers were inlined into it) — for the few rules that look for a helper *as a
+        function* (e.g. the row counter that graph_from_files calls) rather than through it"""
+        b = getattr(self, "original_bodies", {}).get(path)
+        return b if b is not None else self.need(path)
 
     def find(self, suffix):
         """bodies whose path ends with `suffix` (on a '::' boundary)."""
@@ -1492,7 +1500,59 @@ def enumerate_paths(body, max_paths=20000, choose=None, stop_at_loops=True, star
             out.append(Path(conds, blocks, "unreachable"))
         else:
             out.append(Path(conds, blocks, "diverge"))
+    if body.raw.get("inlined"):
+        out = [p_ for p_ in out if _path_feasible(body, p_)]
     return out
+
+
+def _known_variant(t):
+    """variant of a term that is a literal on the path: Ok(..)/Err(..)/Some(..)/None or any aggregate of an enum, seen through
+    Try::branch (Ok/Some => Continue, Err/None => Break)"""
+    while t[0] == "mut":
+        t = t[1]
+    if t[0] == "call" and t[1].endswith("::branch") and len(t[2]) == 1:
+        v = _known_variant(t[2][0])
+        if v in ("Ok", "Some"):
+            return "Continue"
+        if v in ("Err", "None"):
+            return "Break"
+        return None
+    if t[0] == "agg" and isinstance(t[2], str):
+        return t[2]
+    if t[0] == "call" and re.search(r"FromResidual<.*>>::from_residual$", t[1]):
+        # the value `e?` returns early with: always the error side
+        return "Err" if t[1].startswith("<std::result::Result<") else ("None" if t[1].startswith("<std::option::Option<") else None)
+    return None
+
+
+def _path_feasible(body, path):
+    """in a body that received inlined copies: a path that takes the `Break` arm of `x?` although x is a literal Ok(..) on
+    that very path (the inlined helper's `Ok(v)` flowing into the caller's `?`) cannot happen"""
+    if not path.conds:
+        return True
+    seen_bb = set()
+    for dt, label, bb in path.conds:
+        if dt[0] != "discr" or bb in seen_bb:
+            continue
+        seen_bb.add(bb)
+        # the values known when the switch is reached the first time: only the edges of the path before it
+        k = path.blocks.index(bb)
+        edges = set(zip(path.blocks[:k + 1], path.blocks[1:k + 1]))
+        tm = Terms(body, edge_ok=lambda a, b, edges=edges: (a, b) in edges)
+        try:
+            d, names = switch_discr_info(body, bb)
+            pt = tm.operand(d, bb)
+        except Exception:
+            continue
+        if pt[0] != "discr":
+            continue
+        v = _known_variant(pt[1])
+        if v is None:
+            continue
+        allowed = set(label[1]) if isinstance(label, tuple) else {label}
+        if names is not None and v in names.values() and v not in allowed:
+            return False
+    return True
 
 
 class TooManyPaths(Exception):
@@ -2006,6 +2066,7 @@ def _inline_calls(raw, helpers, stats):
     if not any(b["term"]["k"] == "call" and (b["term"]["func"].get("resolved") or b["term"]["func"].get("def")) in helpers for b in blocks):
         return raw
     raw = dict(raw)
+    raw["inlined"] = True
     raw["blocks"] = blocks = [dict(b, stmts=list(b["stmts"])) for b in blocks]
     raw["locals"] = locals_ = list(raw["locals"])
     raw["debug"] = debug = list(raw.get("debug", []))
@@ -2107,10 +2168,12 @@ def _inline_new_helpers(facts):
     for p in sorted(cand):
         visit(p)
     touched = []
+    facts.original_bodies = {}
     for p, b in list(facts.bodies.items()):
         raw2 = helpers[p] if p in helpers else _inline_calls(b.raw, helpers, facts.inlined.setdefault("sites", {}))
         if raw2 is not b.raw:
             nb = Body(raw2, b.crate, facts)
+            facts.original_bodies[p] = b
             facts.bodies[p] = nb
             touched.append(p)
     for key, body in list(facts.promoted.items()):
@@ -2121,6 +2184,27 @@ def _inline_new_helpers(facts):
             body = facts.bodies[p]
             if not _fold_constant_switches(body):
                 break
+            # blocks that can no longer be reached are emptied, so that they are nobody's predecessor (value flow merges
+            # the definitions of all predecessors)
+            live = set()
+            work = [0]
+            blocks = body.raw["blocks"]
+            def succs(t):
+                out = []
+                for k in ("target", "otherwise", "unwind"):
+                    if isinstance(t.get(k), int):
+                        out.append(t[k])
+                out += [x[1] for x in t.get("targets", [])]
+                return out
+            while work:
+                x = work.pop()
+                if x in live:
+                    continue
+                live.add(x)
+                work += succs(blocks[x]["term"])
+            for i_, blk in enumerate(blocks):
+                if i_ not in live:
+                    blocks[i_] = {"stmts": [], "term": {"k": "unreachable", "line": blk["term"].get("line"), "exp": False, "dead": True}, "cleanup": blk["cleanup"]}
             facts.bodies[p] = Body(body.raw, body.crate, facts)
     # a helper whose every call was replaced is no longer a function of the program the rules look at (its closures stay:
     # the inlined copies create them); one that is still called somewhere (e.g. from a cleanup path) is kept
@@ -2357,6 +2441,44 @@ def region_value(body, edge, local=0, stop_blocks=()):
         return True
 
     tm = Terms(body, edge_ok=ok)
+    if body.raw.get("inlined"):
+        # in a body that received inlined copies, `x?` whose x is known on these paths to be the error an inlined helper
+        # returned early (or a literal Ok) has only one feasible arm: follow only that one
+        removed = set()
+        for _ in range(4):
+            more = set()
+            for sbb in sorted(region):
+                t = body.blocks[sbb]["term"]
+                if t["k"] != "switch":
+                    continue
+                try:
+                    d, names = switch_discr_info(body, sbb)
+                    dt = tm.operand(d, sbb)
+                except Exception:
+                    continue
+                if names is None or dt[0] != "discr":
+                    continue
+                v = _known_variant(dt[1])
+                if v is None or v not in names.values():
+                    continue
+                keep = switch_target(t, names, v)
+                for tgt in set([x_[1] for x_ in t["targets"]] + [t["otherwise"]]):
+                    if tgt != keep and (sbb, tgt) not in removed:
+                        more.add((sbb, tgt))
+            if not more:
+                break
+            removed |= more
+            live = set()
+            work = [b]
+            while work:
+                x_ = work.pop()
+                if x_ in live or x_ in stop_blocks:
+                    continue
+                live.add(x_)
+                work += [y_ for y_ in body.succ[x_] if (x_, y_) not in removed]
+            region = live
+            ok2 = lambda x, y, ok=ok, removed=removed, region=region: ok(x, y) and (x, y) not in removed and (x in region or (x, y) == (a, b) or y not in region)
+            tm = Terms(body, edge_ok=ok2)
     out = []
     for rb in body.return_blocks():
         if rb in region:
@@ -2408,6 +2530,9 @@ def try_propagation(body, cs, tm=None):
             continue
         inner = dt[1]
         is_branch = inner[0] == "call" and inner[1].endswith("::branch") and len(inner[2]) == 1 and inner[2][0] == key
+        if not is_branch and body.raw.get("inlined") and inner[0] == "call" and inner[1].endswith("::branch") and len(inner[2]) == 1 and inner[2][0][0] == "phi" and key in inner[2][0][1]:
+            # the result of an inlined copy that returns this call's value on one of its paths, `?`-ed by the caller
+            is_branch = True
         direct = inner == key
         if not (is_branch or direct):
             continue
@@ -2420,6 +2545,22 @@ def try_propagation(body, cs, tm=None):
             return {"kind": "other", "detail": "Err arm does not reach a return"}
         # the Err arm must not re-enter normal processing: every reachable return is Err-shaped
         bad = [short(v) for _, v in vals if not is_err_value(v)]
+        if bad and body.raw.get("inlined"):
+            # the call sits in an inlined copy: its Err leaves the copy as the copy's own result and is `?`-ed again by the
+            # caller.  Decide on the feasible paths from the Err arm (a path that takes the Ok side of that second `?`
+            # although the value is the error just produced is not one).
+            try:
+                ps = enumerate_paths(body, max_paths=3000, start=tgt)
+                ok_all = bool(ps)
+                for p_ in ps:
+                    if p_.end == "return":
+                        ok_all = ok_all and is_err_value(path_return_term(body, p_))
+                    elif p_.end not in ("diverge", "unreachable"):
+                        ok_all = False
+                if ok_all:
+                    bad = []
+            except TooManyPaths:
+                pass
         if bad:
             return {"kind": "other", "detail": "Err arm reaches a non-Err return: %s" % bad[:2]}
         return {"kind": "propagated", "detail": "Err arm bb%d -> return" % tgt, "switch": bb, "err_target": tgt, "ok_target": switch_target(t, names, "Continue" if is_branch else "Ok")}
@@ -2479,6 +2620,21 @@ def table(body, max_paths=20000):
         r.retn = norm_return(body.facts, r.ret) if r.ret is not None else None  # `x.map(f)` shown as Ok{f(x)} / Some{f(x)}
         rows.append(r)
     return rows
+
+
+
+def ok_value(r):
+    """the value a path returns on success, whatever the spelling: Ok(v) is v; `x.map(f)` is f(x); a fallible call returned as
+    it is stands for its own Ok payload (payload convention).  None for an error path."""
+    v = r.ret
+    if v is None or is_err_value(v) or result_variant(v) == "Err":
+        return None
+    if result_variant(v) == "Ok":
+        return agg_payload(v)
+    vn = getattr(r, "retn", None)
+    if vn is not None and result_variant(vn) == "Ok":
+        return agg_payload(vn)
+    return v
 
 
 def sel_is(row, base, variant):
@@ -2583,6 +2739,105 @@ def _forall_adaptor_form(body, inner_pred, tm):
     return None
 
 
+def _forall_map_or_form(body, inner_pred, tm):
+    """`opt.map_or(true, |coll| coll.iter().all(|x| test(x)))`: nothing to test => true, else all elements"""
+    F = body.facts
+    for c in body.calls():
+        if not (c.callee and re.search(r"Option::<T>::map_or(_else)?$", c.callee)) or len(c.args) != 3:
+            continue
+        dflt = nosite(deep_strip(tm.operand(c.args[1], c.bb)))
+        if dflt[0] == "closure" and dflt[1] in F.bodies:
+            dflt = nosite(deep_strip(Terms(F.bodies[dflt[1]]).return_term()))
+        cl = tm.operand(c.args[2], c.bb)
+        if dflt != ("const", "bool", True) or cl[0] != "closure" or cl[1] not in F.bodies:
+            continue
+        cb = F.bodies[cl[1]]
+        res = _forall_adaptor_form(cb, inner_pred, Terms(cb))
+        if res is None:
+            continue
+        recv = deep_strip(tm.operand(c.args[0], c.bb))
+        caps = cl[2]
+        sub = lambda y: recv if y == ("arg", 2) else (caps[int(y[2])] if y[0] == "field" and y[1] == ("arg", 1) and str(y[2]).isdigit() and int(y[2]) < len(caps) else None)
+        res = dict(res)
+        res["collection"] = rewrite(res["collection"], sub)
+        inner = res["inner"]
+        res["inner"] = VirtualCallSite(c, inner.inner, [rewrite(a["t"], sub) for a in inner.args], rewrite(inner.term["vterm"], sub))
+        mt = tm.call_term(c.term, c.bb)
+        if not contains(tm.return_term(), lambda q: q == mt):
+            res["problems"] = res["problems"] + ["the result of map_or(true, all(..)) is not what the function returns"]
+            res["ok"] = False
+        return res
+    return None
+
+
+def _forall_find_form(body, inner_pred, tm):
+    """`coll.iter().map(|x| test(x)).find(|r| !matches!(r, Ok(true)))` then `Some(r) => r, None => Ok(true)`: the first verdict
+    that is not Ok(true) (a rejection or an error) is the result, Ok(true) only after all — the lazy spelling of the loop"""
+    F = body.facts
+    for c in body.calls():
+        if not (c.callee and itm(c.callee, "find")) or len(c.args) != 2:
+            continue
+        recv = deep_strip(tm.operand(c.args[0], c.bb))
+        maps = [x for x in calls_in(recv) if itm(x[1], "map") and len(x[2]) == 2 and x[2][1][0] == "closure" and x[2][1][1] in F.bodies]
+        pcl = tm.operand(c.args[1], c.bb)
+        if len(maps) != 1 or pcl[0] != "closure" or pcl[1] not in F.bodies:
+            continue
+        mcl = maps[0][2][1]
+        mb, pb = F.bodies[mcl[1]], F.bodies[pcl[1]]
+        tests = [x for x in mb.calls() if inner_pred(x)]
+        if len(tests) != 1:
+            continue
+        problems = []
+        mtm = Terms(mb)
+        if nosite(deep_strip(mtm.return_term())) != nosite(deep_strip(mtm.call_term(tests[0].term, tests[0].bb))):
+            problems.append("the mapped closure does not return the verdict of the per-element test unchanged")
+        # the predicate is false exactly for Ok(true)
+        okp = False
+        try:
+            rows = [r for r in table(pb, max_paths=2000) if r.end == "return"]
+            def cval(t_):
+                if t_[0] == "un" and t_[1] == "Not":
+                    v_ = cval(t_[2])
+                    return None if v_ is None else (not v_)
+                return t_[2] if t_[0] == "const" and isinstance(t_[2], bool) else None
+            falses = [r for r in rows if cval(r.ret) is False]
+            trues = [r for r in rows if cval(r.ret) is True]
+            def is_ok_true(r):
+                ok_sel = any(v == "Ok" for k, v in r.sel.items() if contains(k, lambda q: q == ("arg", 2)))
+                tr = any(cond_truth(l) is True for t_, l in r.bools if contains(t_, lambda q: q == ("arg", 2))) or any(l == 1 for t_, l in r.bools)
+                return ok_sel and tr
+            okp = bool(falses) and len(falses) + len(trues) == len(rows) and all(is_ok_true(r) for r in falses) and not any(is_ok_true(r) for r in trues)
+        except Exception:
+            okp = False
+        if not okp:
+            problems.append("find's predicate is not `anything but Ok(true)`")
+        src = maps[0][2][0]
+        trunc = [x[1] for x in calls_in(recv) if _TRUNCATING.search(x[1])]
+        if trunc:
+            problems.append("the iterated collection is truncated/filtered: %s" % trunc)
+        # Some(r) => r ; None => Ok(true)
+        ft = nosite(deep_strip(tm.call_term(c.term, c.bb)))
+        okr = False
+        try:
+            rws = [r for r in table(body, max_paths=5000) if r.end == "return"]
+            somes = [r for r in rws if r.sel.get(ft) == "Some"]
+            nones = [r for r in rws if r.sel.get(ft) == "None"]
+            okr = bool(somes) and bool(nones) and all(r.ret == ft for r in somes) and all(r.ret == ("agg", "std::result::Result", "Ok", (("0", ("const", "bool", True)),)) for r in nones)
+        except Exception:
+            okr = False
+        if not okr:
+            problems.append("the first non-Ok(true) verdict is not returned as it is, or `no such verdict` is not Ok(true)")
+        elem = ("call", "<element of>", (nosite(src),))
+        caps = mcl[2]
+        sub = lambda y: elem if y == ("arg", 2) else (caps[int(y[2])] if y[0] == "field" and y[1] == ("arg", 1) and str(y[2]).isdigit() and int(y[2]) < len(caps) else None)
+        arg_terms = [rewrite(mtm.operand(a, tests[0].bb), sub) for a in tests[0].args]
+        if not any(contains(a, lambda q: q == elem) for a in arg_terms):
+            problems.append("the per-element test is not applied to the element")
+        inner = VirtualCallSite(c, tests[0], arg_terms, rewrite(mtm.call_term(tests[0].term, tests[0].bb), sub))
+        return {"ok": not problems, "problems": problems, "inner": inner, "next": c, "collection": src}
+    return None
+
+
 def forall_loop(body, inner_pred, tm=None):
     """Analyse a function of the shape above.  `inner_pred(callsite)` selects the per-element test.
     Returns dict with keys: ok(bool), problems(list of str), inner(CallSite), next(CallSite), collection(term)"""
@@ -2590,9 +2845,10 @@ def forall_loop(body, inner_pred, tm=None):
     problems = []
     inners = [c for c in body.calls() if inner_pred(c)]
     if len(inners) == 0:
-        alt = _forall_adaptor_form(body, inner_pred, tm)
-        if alt is not None:
-            return alt
+        for form in (_forall_adaptor_form, _forall_map_or_form, _forall_find_form):
+            alt = form(body, inner_pred, tm)
+            if alt is not None:
+                return alt
     if len(inners) != 1:
         return {"ok": False, "problems": ["expected exactly one per-element test, found %d" % len(inners)]}
     inner = inners[0]
@@ -3094,6 +3350,12 @@ def iteration_table(body, head, max_paths=5000, stop_at_exit=False):
                     if body.blocks[tgt]["term"]["k"] != "unreachable":
                         nexts.append((tgt, conds))
                 succs_ = []
+            kvar = None
+            if names is not None and dt[0] == "discr" and body.raw.get("inlined"):
+                # `x?` where x is, on this path, the Ok(..)/error that an inlined copy just produced: one feasible arm
+                kvar = _known_variant(dt[1])
+                if kvar is not None and kvar not in names.values():
+                    kvar = None
             for v, tgt in succs_:
                 label = v
                 if names is not None and v != "otherwise":
@@ -3102,6 +3364,8 @@ def iteration_table(body, head, max_paths=5000, stop_at_exit=False):
                     taken = {names.get(x, x) for x, _ in t["targets"]}
                     label = ("otherwise", tuple(n for n in names.values() if n not in taken))
                 if body.blocks[tgt]["term"]["k"] == "unreachable":
+                    continue
+                if kvar is not None and tgt != switch_target(t, names, kvar):
                     continue
                 nexts.append((tgt, conds + [(dt, label, bb)]))
         elif k in ("goto", "drop", "assert"):
@@ -3252,6 +3516,8 @@ def accumulations(body, depth=0):
                     continue
                 caps = cl[2]
                 step = rewrite(kept[0], lambda y: U(caps[int(y[2])]) if y[0] == "field" and y[1] == ("arg", 1) and str(y[2]).isdigit() and int(y[2]) < len(caps) else None)
+                # `|acc, x| x.map(|v| f(acc, v))`: read through the inner adaptor (payload convention)
+                step = U(norm_adaptors(F, step))
                 out.append({"seed": U(tm.operand(c.args[1], c.bb)), "step": step, "acc": ("arg", 2), "elem": ("arg", 3), "src": U(tm.operand(c.args[0], c.bb)), "where": c.where(), "form": "fold", "fn": body.path})
     # new helpers
     if depth < 2 and known_functions():
